@@ -171,7 +171,7 @@ def frame_terms(df):
     """DataFrame of a symbolic simulate run -> {column: object array of scalar terms}, index list"""
     out = {}
     for col in df.columns:
-        vals = list(df[col].values)
+        vals = [sj.scalar(v) if isinstance(v, sj.SymTracer) and getattr(v, "ndim", 1) == 0 else v for v in df[col].values]  # a 0-d symbolic value broadcast by pandas
         out[col] = [sj.force(sj._py(v)) if not isinstance(v, (np.generic,)) else sj.conc(v) for v in vals]
         out[col] = [sj.conc(v) if isinstance(v, (np.generic, float, int, bool)) else v for v in out[col]]
     return out, list(df.index)
